@@ -378,10 +378,25 @@ func init() {
 			}
 			// (E3) the complete single-edit neighbourhood of the reference shapes
 			for _, sh := range d.CertShapes {
-				for k := 0; k < 3; k++ {
+				hasX := false
+				for _, c := range sh {
+					hasX = hasX || c.(string) == "X"
+				}
+				for k := 0; k < 3 || (hasX && k < len(otherRunes)); k++ {
 					s := bases["full"].clone()
 					s.Vals["certRef"] = V{K: "text", N: len(sh), S: sh}
-					how := []string{"lit", "json", "cbor"}[k]
+					how := []string{"lit", "json", "cbor"}[k%3]
+					if hasX {
+						// go through every "other" character at the X positions (literal build keeps the exact string)
+						txt := r.conc.textWith(sh, k)
+						c := r.conc.BuildLit(s)
+						setCertRef(c, txt)
+						ev := observeRead(c, r.b, "certshape", "lit")
+						r.b++
+						r.bysrc["certshape"]++
+						r.t.Emit(ev, true, nontrivialRead(ev))
+						continue
+					}
 					r.emit(s, "certshape", how)
 				}
 			}
@@ -500,5 +515,14 @@ func init() {
 		}
 		r.t.Close(map[string]any{"skipped_builds": r.skips, "by_source": r.bysrc})
 		fmt.Fprintf(os.Stderr, "claims-read: %d events, %d skipped builds\n", r.t.n, r.skips)
+	}
+}
+
+func setCertRef(c psatoken.IClaims, txt string) {
+	switch t := c.(type) {
+	case *psatoken.P1Claims:
+		t.CertificationReference = &txt
+	case *psatoken.P2Claims:
+		t.CertificationReference = &txt
 	}
 }
